@@ -56,7 +56,7 @@ func init() {
 		"cli:store-path:canonical", "cli:store-path:non-canonical", "cli:store-path:non-canonical:prune", "cli:store-path:non-canonical:verify",
 		"cli:store-path:trailing-slash", "cli:store-path:double-slash", "cli:store-path:dot", "cli:store-path:dotdot",
 		"cli:store-path:relative", "cli:store-path:relative-dot", "cli:store-path:relative-trailing-slash",
-		"cli:store-path:symlink", "cli:store-path:symlink-trailing-slash", "cli:store-path:symlink-in-path",
+		"cli:store-path:symlink", "cli:store-path:symlink-trailing-slash", "cli:store-path:symlink-in-path", "cli:store-path:symlink-relative", "cli:store-path:symlink-chain", "cli:store-path:symlink-chain-relative", "cli:store-path:symlink-chain-3",
 		"cli:prune:unlink-fails", "cli:prune:unlink-fails:delivered", "cli:verify-repair:unlink-fails", "cli:verify-repair:unlink-fails:delivered")
 	spec.Rule += "; with $VERIF_DESYNC_BIN: additionally `desync prune -y -s <local store> <1..4 index files>` (caibx/caidx of different lengths in generated order, overlapping or disjoint, " +
 		"optionally one on stdin) and `desync verify -s <store> -n N [-r]` as child processes, uncompressed mode via --config or $HOME config, same clauses plus exit status 0; " +
